@@ -468,3 +468,57 @@ def run_visits_the_nodes_the_history_functions_return(nCycles: int, shift: int, 
         assert eq(cycleLength, lengths[c]) and eq(availability, a), "the reactor's time state carries the cycle's length and availability"
         if n < ns[c]:
             assert eq(stepLength, steps[c][n]), "and the length of the step that starts at the node"
+
+
+@lemma(gen={"nCycles": (1, 3), "m": (1, 4), "which": (0, 2), "x": (0.0, 1.0), "L": (1.0, 500.0)})
+def a_simple_history_list_of_the_wrong_length_is_refused(nCycles: int, m: int, which: int, x: float, L: float):
+    """simple input with ONE per-cycle list (cycleLengths / availabilityFactors / powerFractions) of m = 1..4 entries
+    against nCycles = 1..3: the Operator property fed by that list raises ValueError exactly when m != nCycles"""
+    nCycles = choose(nCycles, 1, 3)
+    m = choose(m, 1, 4)
+    which = choose(which, 0, 2)
+    assume(L >= 0 and 0 <= x and x <= 1)
+    if which == 0:
+        cs = simple_cs(nCycles, 2, cycleLength=L, cycleLengths=[L] * m, availabilityFactor=x)
+    elif which == 1:
+        cs = simple_cs(nCycles, 2, cycleLength=L, availabilityFactor=x, availabilityFactors=[x] * m)
+    else:
+        cs = simple_cs(nCycles, 2, cycleLength=L, availabilityFactor=x, powerFractions=[x] * m)
+    o = bare_operator(cs)
+    try:
+        got = o.cycleLengths if which == 0 else (o.availabilityFactors if which == 1 else o.powerFractions)
+        ok = True
+    except ValueError:
+        ok = False
+    assert ok == (m == nCycles), "refused exactly when the list has another number of entries than nCycles"
+    if ok:
+        assert len(got) == nCycles and len(o.stepLengths) == nCycles and o.burnSteps == [2] * nCycles
+
+
+@lemma(gen={"nCycles": (1, 3), "shift": (0, 2), "n0": (1, 2), "n1": (1, 2), "n2": (1, 2), "c": (0, 2), "n": (0, 2), "L": (1.0, 500.0),
+            "d0": (0.5, 90.0), "d1": (0.5, 90.0)})
+def node_numbering_on_a_detailed_history_is_inverse_and_in_visiting_order(nCycles: int, shift: int, n0: int, n1: int, n2: int, c: int,
+                                                                          n: int, L: float, d0: float, d1: float):
+    """the (cycle, node) <-> cumulative node / cumulative step conversions with the REAL getNodesPerCycle / getBurnSteps
+    on a detailed input (1..3 cycles x 1..2 steps, the 3 ways rotating with `shift`), for every node (c, n) of the run;
+    C15_nodes.py proves the same for arbitrary vectors through the contract 'returns the vector'"""
+    nCycles = choose(nCycles, 1, 3)
+    shift = choose(shift, 0, 2)
+    ns = [choose(n0, 1, 2), choose(n1, 1, 2) if nCycles > 1 else 1, choose(n2, 1, 2) if nCycles > 2 else 1][:nCycles]
+    c = choose(c, 0, 2)
+    assume(c < nCycles)
+    n = choose(n, 0, 2)
+    assume(n <= ns[c])
+    assume(L >= 0 and d0 > 0 and d1 > 0)
+    cs = {"cycles": [detailed_cycle((k + shift) % 3, ns[k], L, 1.0, [d0, d1]) for k in range(nCycles)], "nCycles": nCycles}
+    t = utils.getCumulativeNodeNum(c, n, cs)
+    assert t == sum(ns[:c]) + c + n, "nodes of the earlier cycles (steps + 1 each) + node"
+    assert utils.getCycleNodeFromCumulativeNode(t, cs) == (c, n), "inverse"
+    if n < ns[c]:
+        assert utils.getCumulativeNodeNum(c, n + 1, cs) == t + 1
+        assert utils.getPreviousTimeNode(c, n + 1, cs) == (c, n)
+        s = sum(ns[:c]) + n + 1  # the step that starts at (c, n), numbered from 1
+        assert utils.getCycleNodeFromCumulativeStep(s, cs) == (c, n), "step numbers name the node at which the step starts"
+    elif c + 1 < nCycles:
+        assert utils.getCumulativeNodeNum(c + 1, 0, cs) == t + 1, "the first node of the next cycle follows the last of this one"
+        assert utils.getPreviousTimeNode(c + 1, 0, cs) == (c, n)
